@@ -271,7 +271,18 @@ impl AnalyzeExpression for Expression {
             Self::IntLiteral(_) => Some(DataType::Int),
             Self::Variable(v) => v.analyze(table),
             Self::Binary(b) => b.analyze(table),
-            Self::Unary(u) => u.expr.analyze(table),
+            Self::Unary(u) => {
+                let operand_type = u.expr.analyze(table);
+                if matches!(operand_type, Some(ref t) if *t != DataType::Int) {
+                    let range = u.to_range();
+                    u.info.append_error(SplError(
+                        range,
+                        SemanticErrorMessage::ArithmeticOperatorNonInteger.into(),
+                    ));
+                }
+                // Type is always inferable from operator.
+                Some(DataType::Int)
+            }
             Self::Bracketed(b) => b.expr.analyze(table),
             Self::Error(_) => None,
         }
